@@ -446,6 +446,12 @@ def oracle_role_permutations(ctx, res):
             fn(*s.qs)
             s.flush()
             out = s.state()
+        except Exception as exc:  # the real code raises for a legal input: that is the failing input
+            res.failures.append({"what": f"{name} raises / makes the controller fault for a legal input (qubit ids "
+                                         "not in the order of their roles)", "kf": None,
+                                 "input": {"function": name, "virtual_ids_by_role": dict(zip(roles_desc, ids)),
+                                           "error": f"{type(exc).__name__}: {str(exc)[:200]}"}})
+            return
         finally:
             s.close()
         want = target @ psi
@@ -513,6 +519,16 @@ def oracle_role_permutations(ctx, res):
                     post = s.state()
                     probs = s.ex.meas_probs[0] if s.ex.meas_probs else None
                     raw = [e[2] for e in s.ex.trace if e[0] == "meas"]
+                except Exception as exc:  # the real code raises for a legal input: that is the failing input
+                    res.failures.append({"what": "parity_meas raises / makes the controller fault for a legal input "
+                                                 "(qubit ids not in the order of their roles)", "kf": None,
+                                         "input": {"bases": ("-" if negative else "") + bases,
+                                                   "virtual_ids_of_data_qubits_in_string_order": ids,
+                                                   "flavour": "NV (compiler=NVSubroutineTranspiler)" if nv else "vanilla",
+                                                   "history":
+                                                   f"allocate {n_alloc} qubits, measure+free {free}, then parity_meas",
+                                                   "error": f"{type(exc).__name__}: {str(exc)[:200]}"}})
+                    continue
                 finally:
                     s.close()
                 # tie: relabelled by ROLE (i-th data qubit -> i, ancilla -> n) the real trace is the model's
